@@ -72,7 +72,8 @@ PROPS = {
                 extra_assumptions=[TW_NOTE]),
     "C08": spec([reg("C08", 60000, 45, 3000000, 700), tw(8000, 25, 400000, 200)],
                 extra_assumptions=[TW_NOTE]),
-    "C09": spec([reg("C09", 60000, 45, 3000000, 780)]),
+    "C09": spec([reg("C09", 60000, 45, 3000000, 700), tw(6000, 20, 300000, 150)],
+                extra_assumptions=[TW_NOTE]),
     "C10": spec([reg("C10", 36000, 45, 2000000, 780)]),
     "C14": spec([reg("C14", 40000, 45, 2000000, 780)]),
     "C15": spec([reg("C15", 60000, 45, 3000000, 780)],
